@@ -1,6 +1,6 @@
 """Stage-2 lemma sets (E2): P1/P3 (unifiedMachine vs the reference parser), shared by C01, C02, C05, C08, C15, C17."""
 from .e2.checklib import Lemma
-from .e2.intr_stage2 import Stage2SummIntrinsics, Stage2Intrinsics
+from .e2.intr_stage2 import Stage2SummIntrinsics, Stage2Intrinsics, Stage2EscIntrinsics
 
 FP3 = ["zz_verif_tape.go", "zz_verif_wf.go", "zz_verif_t1.go", "zz_verif_p3.go"]
 PN = "github.com/minio/simdjson-go.parseNumber"
@@ -83,4 +83,18 @@ def p3_skeleton_lemmas(tier, ndjson=(0, 1)):
                                      "reference parser" % (i, "ndjson" if nd else "json"),
                                 bound="documents up to 11 tokens (list in harness/zz_verif_p3.go), one free token at a time; strings without escapes; parseNumber = its summary",
                                 expect_reach=["P3s.returned"]))
+    return ls
+
+
+def p3_escape_lemmas(tier):
+    plan = [(0, 4), (0, 5), (0, 6), (1, 4)] if tier == "quick" else [(0, w) for w in (4, 5, 6, 7)] + [(1, 4), (1, 5)]
+    ls = []
+    for obj, w in plan:
+        ls.append(Lemma("P3.escapes.%s.w%d" % ("obj" if obj else "arr", w), "verifHarness_P3_Escapes", FP3,
+                        splits=[{"obj": obj, "w": w - 4}], split_depth="auto", intr=Stage2EscIntrinsics,
+                        desc="strings with two-character escapes through stage 2 (%s, string bodies of %d free bytes, both string modes): the real "
+                             "validating wrapper decides from the decoder's two lengths whether the string must be copied; accepted iff the "
+                             "escapes are well-formed; exposed bytes = decoded bytes; assembly below the wrapper = REF-STR restricted to the "
+                             "eight two-character escapes" % ('{"k":"v"}' if obj else '["v"]', w - 2),
+                        bound="string bodies of %d bytes; \\u escapes excluded here (lemmas S1-S4)" % (w - 2), expect_reach=["P3e.returned", "P3e.accepted"]))
     return ls
